@@ -114,11 +114,15 @@ def try_(name, check, tier="quick"):
         print("stored patch does not apply to /repo HEAD (re-run confirm):", o)
         return 3
     sh("git apply %s" % patch, cwd="/repo")
+    ev = "/verif/evidence/%s.json" % check
+    saved = open(ev).read() if os.path.exists(ev) else None
     try:
         rc, o = sh("./run.sh %s %s" % (check, tier), cwd="/verif", timeout=7200)
     finally:
         sh("git checkout -- .", cwd="/repo")
-        sh("git checkout -- evidence/%s.json" % check, cwd="/verif")
+        # the evidence of a run against a seeded tree is not kept
+        if saved is not None:
+            open(ev, "w").write(saved)
     viol = [l for l in o.splitlines() if l.startswith("VIOLATION")]
     what = [l.strip() for l in o.splitlines() if l.strip().startswith("what:")][:2]
     mp = os.path.join(d, "meta.json")
